@@ -384,7 +384,12 @@ func (s *clusterState) Digest() digest {
 			ID:      state.ID,
 			Addr:    state.Addr,
 			Version: state.Version,
-			Left:    state.Left,
+			// Unreachable nodes are also advertised as left so peers that
+			// have already expired the node don't re-discover it from us (as
+			// otherwise nodes that expire a failed node at different times
+			// keep re-learning it from one another forever). Peers that still
+			// know the node are unaffected.
+			Left: state.Left || state.Unreachable,
 		})
 	}
 	return digest
